@@ -43,6 +43,11 @@ def render(prog):
         elif k == "mut": L.append(f"{v} = !v{a}")
         elif k == "cls": L.append(f"C{n} = Class {{x = Int}}\n{v} = C{n}.new {{x = v{a}}}")
         elif k == "match": L.append(f"{v} = match v{a}:\n    0 -> 1\n    (s: Str) -> 2\n    _ -> 3")
+        elif k == "erec": L.append(f"{v} = {{=}}\nprint! {v}")
+        elif k == "matchd": L.append(f"{v} = match v{a}, (x := 1) -> x")
+        elif k == "matchd2": L.append(f"h{n}(z) =\n    match z:\n        (p, q := 2) -> p\n        (x := 1) -> x\n{v} = h{n}(v{a})")
+        elif k == "recn": L.append(f"h{n}(z) = {{.a = z; .b = {{=}}}}\n{v} = h{n}(v{a})")
+        elif k == "lamd": L.append(f"{v} = ((p, q := v{a}) -> p)(v{a})")
         elif k == "ifexpr": L.append(f"{v} = if v{a} == v{a}:\n    do: 1\n    do: 2")
         else: raise ValueError(k)
     return "\n".join(L) + "\n"
